@@ -14,7 +14,7 @@ import regen_c03
 PID = "C03"
 THEOREMS = ["paths_agree_v1", "paths_agree_v21", "independent_of_signer", "independent_of_supply",
             "dc_rsa_needs_three_byte_exponent", "leading_zero_safe", "raw_key_roundtrip",
-            "certblock_v1_roundtrip_except_known", "certblock_v1_roundtrip_refuted",
+            "certblock_v1_roundtrip", "ahab_v2_rsa_accepted",
             "certblock_v21_roundtrip", "certblock_v21_heuristic_refuted", "certblock_v21_family_data_safe",
             "isk_signed_range", "flags_describe", "ahab_supply_dependence_refuted", "ahab_except_known",
             "hab_fuses_spec", "db_rot_types_known"]
@@ -267,7 +267,7 @@ def gen_cases(tier, rng, pub, fam_rows, pfr_rows):
     #  evaluated once for all of them, while the implementation and the oracles see every encoding)
     rot = []
     groups = [rsa[2048], rsa[3072], rsa[4096], ecc[256], ecc[384], ecc[521]]
-    accepted = {1: groups[:3], 21: groups[3:5], 3: groups, 4: groups[3:], 5: groups, 6: []}
+    accepted = {1: groups[:3], 21: groups[3:5], 3: groups, 4: groups, 5: groups, 6: []}
     deep = groups if thorough else [rsa[2048], ecc[256], ecc[384], ecc[521]]      # key classes explored in depth in this tier
 
     def alt(n, other):
